@@ -105,9 +105,9 @@ SHARE = [
     (r"^c04_send_loop_0$", ["C06", "C16"]),
     (r"^c04_send_loop_[12]$", ["C01"]),
     (r"^c04_send_loop_3$", ["C07"]),
-    (r"^c04_send_loop_4$", ["C16", "C01"]),
+    (r"^c04_send_loop_4$", ["C01"]),
     (r"^c04_send_loop_5$", ["C17"]),
-    (r"^c04_send_loop_[67]$", ["C16", "C17"]),
+    (r"^c04_send_loop_[67]$", ["C17"]),
     (r"^c04_session_present$", ["C06"]),
     (r"^c04_current_k[13]_preservenothing_q2$", ["C01"]),
     (r"^c04_close_pendingack$", ["C01"]),
